@@ -1,5 +1,5 @@
 """Which properties are claimed, at what level, and why (source of MANIFEST.json)."""
-HOOK_COMMITS = ["afda2b8", "88d2dc4", "acb4ee3", "8205e71", "74de000", "52ac3a2", "54e4b2e"]
+HOOK_COMMITS = ["afda2b8", "88d2dc4", "acb4ee3", "8205e71", "74de000", "52ac3a2", "54e4b2e", "b997f38", "aafa7fa"]
 NOTES = ("Technique: model-based verification with an explicit TLA+ specification (spec/), checked with TLC, bound to the "
          "implementation by conformance checks in both directions. See DESIGN.md.")
 NOT_CLAIMED = {}
